@@ -150,7 +150,8 @@ class QiskitConverter:
         for i, inst in enumerate(q_circuit.data):
             gate = inst.operation.name
             qubits = [
-                inst.qubits[i]._index for i in range(inst.operation.num_qubits)
+                q_circuit.find_bit(inst.qubits[i]).index
+                for i in range(inst.operation.num_qubits)
             ]
             if gate not in ALLOWED_GATES:
                 msg = f"Unsupported gate '{gate}' included in circuit."
@@ -346,7 +347,7 @@ def post_selection_analyzer(
         if inst.operation.num_qubits >= 2:
             gate_qubits.append(
                 [
-                    inst.qubits[i]._index
+                    qc.find_bit(inst.qubits[i]).index
                     for i in range(inst.operation.num_qubits)
                 ]
             )
